@@ -44,7 +44,8 @@ Verdicts(r) ==
        ELSE IF 8 * o.r2.steps > 18 * o.r1.steps + 512 THEN {V("nonlinear", r.family)} ELSE {}
   ELSE
   LET helpers == IF Has(o, "query_s") THEN Entry(o.query_s, "ParseQuery(string)") \cup Entry(o.stmt_s, "ParseStatement(string)") \cup Entry(o.expr_s, "ParseExpr(string)") ELSE {}
-      hard == Entry(o.query, "ParseQuery") \cup Entry(o.stmt, "ParseStatement") \cup Entry(o.expr, "ParseExpr") \cup helpers IN
+      reuse == IF Has(o, "reuse") THEN Entry(o.reuse, "a parser used again after the end of its input") ELSE {}
+      hard == reuse \cup Entry(o.query, "ParseQuery") \cup Entry(o.stmt, "ParseStatement") \cup Entry(o.expr, "ParseExpr") \cup helpers IN
   IF hard # {} THEN hard
   ELSE LET ring == Ring(o.query) \cup Ring(o.stmt) \cup Ring(o.expr)
            model == IF PartOf(r) = "model" /\ (r.mok # (o.expr.out = "ok")) THEN {V("drift:model", "")} ELSE {}
